@@ -27,6 +27,7 @@ type AssertClause struct {
 
 type LoopContract struct {
 	Invariants []Clause
+	Progress   []Clause // must hold at every back edge; may mention iterstart(e)
 	Decreases  []string
 	merged     bool
 }
@@ -52,6 +53,7 @@ type Contract struct {
 	TemplRecv     string // receiver type name
 	TemplPattern  string // function name glob
 	Except        []string
+	AssumedEns    []Clause // free postconditions: used at call sites, not proved for the unit (listed in the evidence)
 	Assumes       []Clause // free preconditions: assumed for the body, not required of callers (listed in the evidence)
 	AssumePre     []string // callees whose preconditions are assumed, not proved, at this function's call sites (listed in the evidence)
 	AssumeUnreach []string // explicit panic sites (by a fragment of their source text) assumed unreachable; listed in the evidence
@@ -84,7 +86,7 @@ var clauseKeywords = map[string]bool{
 	"serves": true, "requires": true, "ensures": true, "modifies": true, "decreases": true,
 	"loop": true, "flag": true, "pure": true, "trusted": true, "inline": true, "opaque": true,
 	"nopanic": true, "maypanic": true, "assume-safety": true, "dyncalls-pure": true, "functional": true, "unroll": true, "abstract": true, "allocates": true, "replaytext": true, "wrap": true, "overflow": true, "norac": true, "stages": true,
-	"split": true, "assume-unreachable": true, "ghostset": true, "assumes": true, "assumepre": true, "lemma": true, "assert": true, "dyncall-preserves": true, "except": true, "loopinvariant": true, "loopdecreases": true, "notemplate": true,
+	"split": true, "assume-unreachable": true, "ghostset": true, "assumes": true, "assumepre": true, "lemma": true, "assert": true, "dyncall-preserves": true, "assumed-ensures": true, "except": true, "loopinvariant": true, "loopdecreases": true, "notemplate": true,
 }
 
 // parseContracts reads all /*@ ... @*/ blocks of a contracts file.
@@ -186,6 +188,8 @@ func parseBlock(body string) (*Contract, error) {
 			c.AssumeUnreach = append(c.AssumeUnreach, rest)
 		case "ghostset":
 			c.GhostSets = append(c.GhostSets, rest)
+		case "assumed-ensures":
+			c.AssumedEns = append(c.AssumedEns, mkClause(rest, len(c.AssumedEns)+1))
 		case "assumes":
 			c.Assumes = append(c.Assumes, mkClause(rest, len(c.Assumes)+1))
 		case "assumepre":
@@ -260,6 +264,8 @@ func parseBlock(body string) (*Contract, error) {
 				c.Loops[n] = lc
 			}
 			switch parts[1] {
+			case "progress":
+				lc.Progress = append(lc.Progress, mkClause(parts[2], len(lc.Progress)+1))
 			case "invariant":
 				lc.Invariants = append(lc.Invariants, mkClause(parts[2], len(lc.Invariants)+1))
 			case "decreases":
@@ -520,6 +526,8 @@ func specToGo(s string, resultName string) string {
 					sb.WriteString("__rlocks")
 				case w == "wlocked" && next == '(':
 					sb.WriteString("__wlocked")
+				case w == "iterstart" && next == '(':
+					sb.WriteString("__iterstart")
 				case w == "samemap" && next == '(':
 					sb.WriteString("__samemap")
 				case w == "samecontent" && next == '(':
@@ -623,6 +631,7 @@ func applyTemplates(contracts []*Contract, funcs []string) []*Contract {
 			c.AssumePre = append(c.AssumePre, t.AssumePre...)
 			c.AssumeUnreach = append(c.AssumeUnreach, t.AssumeUnreach...)
 			c.Assumes = append(pre(t.Assumes), c.Assumes...)
+			c.AssumedEns = append(pre(t.AssumedEns), c.AssumedEns...)
 			c.GhostSets = append(c.GhostSets, t.GhostSets...)
 			c.Lemmas = append(c.Lemmas, t.Lemmas...)
 			c.DynPreserves = append(c.DynPreserves, t.DynPreserves...)
